@@ -44,22 +44,36 @@ def children(d):
     raise AssertionError(d)
 
 
-def build(d, payload=lambda p: p):
+class _KeyEnums(dict):
+    """str -> member of a str-valued Enum that compares (and hashes) equal to the plain string but prints differently"""
+
+    def __missing__(self, key):
+        import enum
+
+        self[key] = enum.Enum("Key_" + str(len(self)), {"member": key}, type=str).member
+        return self[key]
+
+
+KEY_ENUM = _KeyEnums()
+
+
+def build(d, payload=lambda p: p, key=lambda k: k):
+    """key: maps the dict keys of the description (strings) to the key objects actually used"""
     k = d[0]
     if k == "leaf":
         return payload(d[1])
     if k == "none":
         return None
     if k == "tuple":
-        return tuple(build(c, payload) for c in d[1])
+        return tuple(build(c, payload, key) for c in d[1])
     if k == "list":
-        return [build(c, payload) for c in d[1]]
+        return [build(c, payload, key) for c in d[1]]
     if k == "dict":
-        return {key: build(c, payload) for key, c in d[1]}
+        return {key(kk): build(c, payload, key) for kk, c in d[1]}
     if k == "nt":
-        return NT[len(d[1])](*[build(c, payload) for c in d[1]])
+        return NT[len(d[1])](*[build(c, payload, key) for c in d[1]])
     if k == "custom":
-        return Custom(d[1], [build(c, payload) for c in d[2]])
+        return Custom(d[1], [build(c, payload, key) for c in d[2]])
     raise AssertionError(d)
 
 
